@@ -114,6 +114,14 @@ pub fn run(ctx: &Ctx) -> i32 {
             check_case(ctx, st, &tcs, Settings::new(f));
         }
     });
+    // 2b. deterministic blocks: repeated multi-code-point graphemes and repeated blanks x settings
+    let mut det = gen::cluster_repeat_cases();
+    det.extend(gen::blank_repeat_cases());
+    let det_settings = [0, REP, REP | ESC, REP | DIGIT, REP | WORD, REP | NWORD, REP | VERB, REP | VERB | CAP, VERB, REP | CI | ESC, REP | NOSTART | VERB];
+    par_for(&ctx.run, det.len() * det_settings.len(), |i, st| {
+        st.count("cluster_and_blank_repeat_cases");
+        check_case(ctx, st, &det[i % det.len()], Settings::new(det_settings[i / det.len()]));
+    });
     // 3. structured random families over adversarial alphabets x random lattice points
     let n = if ctx.thorough { 400_000 } else { 24_000 };
     let alphabets: Vec<(String, Vec<String>)> = gen::ALPHABETS.iter().map(|a| (a.to_string(), gen::alphabet(a))).collect();
